@@ -227,6 +227,11 @@ def run_shard(ctx):
             form.settings.pop("default_language", None)
             if rng.random() < 0.5:
                 form.args["default_language"] = rng.choice(form.meta["langs"] + ["Other (ot)", "", ""])  # the empty name is a name too (an API caller's "no name")
+        if i % 13 == 6 and form.choices:
+            # a data column on the choices sheet named like the element that carries a choice's generated text id
+            for c_ in form.choices[sorted(form.choices)[0]]:
+                c_["itextId"] = rng.choice(["mine", "x1", "lst-0"])
+            ctx.ctr("choices_column_named_itextId_forms")
         if i % 5 == 3:
             form.meta["dict_blank_cells"] = i + 1
         o = check(ctx, form, "sparse", common.feature_sig(form))
